@@ -120,6 +120,22 @@ func init() {
 		if thorough {
 			per = 200
 		}
+		// messages held across the WHOLE run: later decodes (through reused buffers) must not change them
+		type heldMsg struct {
+			obj  any
+			snap string
+			c    string
+		}
+		var held []heldMsg
+		defer func() {
+			for _, h := range held {
+				if after := readObj(h.obj).String(); after != h.snap {
+					o.violate(Violation{Property: "C16", Kind: "direct", What: "a decoded message changed while later messages were decoded (it was held across the run)",
+						Case: h.c, Expected: trunc(h.snap, 300), Observed: trunc(after, 300), Key: "held"})
+					break
+				}
+			}
+		}()
 		for _, t := range schema.Types {
 			for i := 0; i < per; i++ {
 				save := g.maxList
@@ -149,6 +165,9 @@ func init() {
 					continue
 				}
 				snap := readObj(obj).String()
+				if i == 0 {
+					held = append(held, heldMsg{obj, snap, fmt.Sprintf("dec %d %s", t.ID, hexOf(r.Appended))})
+				}
 				scribble(own)
 				buf.Reset()
 				buf.Write(bytes.Repeat([]byte{0xEE}, len(own)))
